@@ -17,7 +17,7 @@ def gen_eset(rng):
     n = rng.choice([1, 3, 5, 8, 13, 20, 40])
     ops = []
     for _ in range(n):
-        t = rng.randrange(5)
+        t = rng.randrange(7)
         v = rng.choice([0, 1, 7, 42, 1000, 4294967295])
         k = rng.random()
         if k < 0.25:
@@ -36,7 +36,7 @@ def gen_eset(rng):
             ops.append("c")
         else:
             ops.append("l")
-    ops += ["l"] + ["g%d" % t for t in range(5)]
+    ops += ["l"] + ["g%d" % t for t in range(7)]
     return ops
 
 
